@@ -76,6 +76,15 @@ Theorem quadratic_form_sound : forall (S : RSpace), SpaceLaws S ->
   (selfadj = true -> forall u, A' u = A u) ->
   leaf_sound (leaf_quad S A A' selfadj b c) x.
 Proof. exact leaf_quad_sound. Qed.
+(* its premises hold for QuadraticForm(ScalingOperator) and QuadraticForm(MultiplyOperator) *)
+Theorem quadratic_form_scaling_sound : forall (S : RSpace), SpaceLaws S ->
+  forall (s : R) (b : option (car S)) (c : R) x,
+  leaf_sound (leaf_quad S (sscal S s) (sscal S s) true b c) x.
+Proof. exact leaf_quad_scal_sound. Qed.
+Theorem quadratic_form_multiply_sound : forall (S : RSpace), SpaceLaws S ->
+  forall (v : car S) (b : option (car S)) (c : R) x,
+  leaf_sound (leaf_quad S (smul S v) (smul S v) false b c) x.
+Proof. exact leaf_quad_mult_sound. Qed.
 Print Assumptions quadratic_form_sound.
 Print Assumptions l2norm_sound.
 
